@@ -165,6 +165,23 @@ func runReceipts(r *core.Run) {
 			switch {
 			case k == "id" && flavour == 1:
 				raw := c.Blob(10, "any")
+				// ids whose ten octets all come from one narrow class look like text, like BCD, like padding
+				switch c.Pick(8, 1, 1, 1, 1) {
+				case 1:
+					raw = c.Blob(10, "digits")
+				case 2:
+					for j := range raw {
+						raw[j] = "0123456789abcdefABCDEF"[int(raw[j])%22]
+					}
+				case 3:
+					for j := range raw {
+						raw[j] = (raw[j]%10)<<4 | (raw[j]>>4)%10 // packed BCD
+					}
+				case 4:
+					for j := range raw {
+						raw[j] = []byte{0x00, 0x20, 0x30, 0xff}[int(raw[j])%4]
+					}
+				}
 				for j := range raw {
 					if raw[j] == ':' {
 						raw[j] = ';'
